@@ -446,7 +446,14 @@ def run_programs(ctx, res, jinja2, runner, boost):
         pg = G.PG(rng, pools)
         templates, main, feats = pg.make(rng.randrange(1, 4))
         spec = G.data_spec(rng)
-        one(templates, main, spec, feats, classes_for(i), rng.random() < 0.4, L.MODES)
+        ae = rng.choice([False, False, True, True, "select", "lambda"])
+        if ae in ("select", "lambda"):
+            # a callable autoescape decides per template name: the main template is loaded as x.html (on) or x.txt (off); base / lib / inc
+            # have no extension (off)
+            main = rng.choice(["x.html", "x.txt"])
+            templates[main] = templates.pop("main")
+            feats = feats | {"autoescape-callable"}
+        one(templates, main, spec, feats, classes_for(i), ae, L.MODES)
     for i in range(n_tg):
         tg = TG(rng)
         templates, main = tg.make_set()
